@@ -75,3 +75,53 @@ Section Loop.
       rewrite (oprod_from_valid_ext n ld ld' (tpat t) idx Hld Hv r c Hr Hc). reflexivity.
   Qed.
 End Loop.
+
+(** ------------------------------------------------------------------------------------------
+    Bridging regenerated bit-list expressions (`i*[0] + [1] + (L-i-1)*[1]`, possibly under an
+    `if`) to the hand-written tables, by their entries: two lists are equal when they have the
+    same length and the same k-th entry for every k.  The tactic does not look at HOW the lists
+    are written, so an algebraically equivalent rewrite of the source (`(i+1)*[0]`, a condition
+    `i > 0` with swapped branches, reordered statements) still goes through. *)
+Lemma nth_app_if {A} (l l' : list A) d k :
+  nth k (l ++ l') d = if (k <? length l)%nat then nth k l d else nth (k - length l) l' d.
+Proof.
+  destruct (Nat.ltb_spec k (length l)); [apply app_nth1|apply app_nth2]; assumption.
+Qed.
+Lemma nth_repeat_if {A} (x : A) m d k : nth k (repeat x m) d = if (k <? m)%nat then x else d.
+Proof.
+  revert k; induction m as [|m IH]; intros [|k]; cbn [repeat nth]; try reflexivity.
+  rewrite IH. reflexivity.
+Qed.
+Lemma nth_cons_if {A} (x : A) l d k :
+  nth k (x :: l) d = if (k =? 0)%nat then x else nth (k - 1) l d.
+Proof. destruct k; cbn [nth Nat.eqb]; [reflexivity|]. replace (Datatypes.S k - 1)%nat with k by lia. reflexivity. Qed.
+Lemma nth_nil_any {A} (d : A) k : nth k [] d = d.
+Proof. destruct k; reflexivity. Qed.
+Lemma bits_eq_nth (l l' : list bool) :
+  length l = length l' -> (forall k, (k < length l)%nat -> nth k l false = nth k l' false) -> l = l'.
+Proof. intros Hl H. apply (nth_ext l l' false false Hl H). Qed.
+Lemma pstr_eq z x q z' x' q' : z = z' -> x = x' -> q = q' ->
+  {| pz := z; px := x; pq := q |} = {| pz := z'; px := x'; pq := q' |}.
+Proof. intros -> -> ->. reflexivity. Qed.
+
+Ltac split_conds :=
+  repeat match goal with
+         | |- context [Z.eqb ?a ?b] => destruct (Z.eqb_spec a b)
+         | |- context [Z.ltb ?a ?b] => destruct (Z.ltb_spec a b)
+         | |- context [Z.leb ?a ?b] => destruct (Z.leb_spec a b)
+         | |- context [Nat.eqb ?a ?b] => destruct (Nat.eqb_spec a b)
+         | |- context [Nat.ltb ?a ?b] => destruct (Nat.ltb_spec a b)
+         | |- context [Nat.leb ?a ?b] => destruct (Nat.leb_spec a b)
+         end; cbn [negb].
+Ltac bitlist_len := rewrite ?app_length, ?repeat_length; cbn [length].
+Ltac bitlist_eq :=
+  apply bits_eq_nth;
+  [ bitlist_len; lia
+  | let k := fresh "k" in let Hk := fresh "Hk" in
+    intros k Hk; revert Hk; bitlist_len; intros Hk;
+    repeat (rewrite ?nth_app_if, ?nth_repeat_if, ?nth_cons_if, ?nth_nil_any; bitlist_len);
+    split_conds; first [reflexivity | exfalso; lia] ].
+(** a pair of Pauli strings given by bit-list expressions and constants *)
+Ltac tab_bridge :=
+  cbv zeta; split_conds;
+  (apply f_equal2; apply pstr_eq; first [reflexivity | bitlist_eq | exfalso; lia]).
